@@ -47,7 +47,8 @@ claim('C16', 'other',
       'primitive mutation (all index shapes, path sizes 3/1/0) no length table of the old segment list survives and the cached end points are '
       'the new ones; the methods that rebuild the table are discovered by interpretation and their tolerance guards judged; point/T2t/t2T/length/'
       'start/end and every whole-path answer that may be memoised (isclosed, iscontinuous, bbox) after each mutation equal those of a fresh path; bpoints/poly/point/derivative/bbox/hash of a segment after reassigning a '
-      'control point equal those of a fresh segment (whatever memo exists, however keyed). Numeric equality of recomputed values '
+      'control point equal those of a fresh segment (whatever memo exists, however keyed; length() on concrete control points with hash() '
+      'adversarial); a reversed() copy never inherits a cache that is not valid for the current control points (F25 found and fixed). Numeric equality of recomputed values '
       'is not re-derived (determinism trusted).',
       TRUST + ' MutableSequence mixins reduce to insert/__setitem__/__delitem__ (collections.abc contract). Implicit exceptions '
       '(e.g. IndexError) are not CFG edges; R16.2 covers the one place where they matter.', 'DESIGN.md section 3 C16')
@@ -157,7 +158,8 @@ claim('C07', 'other',
       'counter is incremented on every iteration path and falling out of the loop raises; when the computed midpoint equals a bound '
       '(bracket cannot shrink) every path of the iteration leaves the loop (F05 was found this way); the Path branch recurses on '
       '(segment, s - consumed length) with all four tolerances and maps back through t2T by index; the five ilength methods forward every '
-      'parameter, and on concrete straight Beziers with non-constant speed (exact arc length known) a parameter computed without the inverter '
+      'parameter or answer correctly themselves (Line: t*L == s; 0 and 1 exactly at the ends and only there), the loop and the Path branch being '
+      'located wherever inv_arclength reaches and the Path branch entered through both public entry points; on concrete straight Beziers with non-constant speed (exact arc length known) a parameter computed without the inverter '
       'satisfies length(0,t) == s. Not decided: inverse accuracy and monotonicity (numeric).',
       TRUST + ' Float rounding is modelled only as: the midpoint may equal either bound.', 'DESIGN.md section 3 C07')
 
@@ -185,7 +187,8 @@ claim('C11', 'other',
       'through t2T; in the subdivision solver bezier_intersections (up to three levels of the work-list interpreted on concrete box scenarios, '
       'symbolic tol_deC, Python live list iteration) every examined sub-curve is the dyadic piece of its own input curve, each reported pair '
       'carries the mid parameters of an overlapping cell, and only on paths that know BOTH boxes to be below tol_deC; isclose() tests between '
-      'positions in point_to_t are absolute (rtol=0). Not decided: floating-point accuracy of subdivision and of the arc solvers '
+      'positions in point_to_t are absolute (rtol=0); Arc.point_to_t maps the axis points of concrete axis circles, exact and displaced outward '
+      'by 1e-9 r, to their parameter (clamping of the inverse-trig arguments). Not decided: floating-point accuracy of subdivision and of the arc solvers '
       '(1e-5 / 1e-3).', TRUST, 'DESIGN.md section 3 C11')
 
 claim('C12', 'other',
@@ -216,7 +219,7 @@ claim('C14', 'other',
       'hooked nested helpers (seg2lines, area_without_arcs), parity table, sign-label table for is_contained_by',
       'Thin by nature. Decides: area() of a symbolic closed Line+Quadratic+Cubic path equals the sum of the integrals of x dy as a polynomial '
       'identity in all control points (any valid Green form passes, the boundary terms telescope; the sign is therefore decided too); Arc '
-      'segments are integrated as the chord polyline produced by seg2lines, whose chords run through point(k/n), k=0..n; '
+      'segments are integrated as the chord polyline produced by seg2lines, whose chords run through point(k/n), k=0..n, for n = 1, 2, 3; '
       'path_encloses_pt asserts closedness and returns the parity of the crossings of Path(Line(pt,opt)); is_contained_by returns False on '
       'any crossing or when the start lies outside the closed bbox and otherwise delegates with a probe end strictly outside the bbox. '
       'Not decided: numeric exactness, the crossing counts themselves (C12), chord error for arcs.', TRUST, 'DESIGN.md section 3 C14')
